@@ -4,7 +4,6 @@ let show_u32 (x:z) : string = z_to_string x
 let ty_of (s:string) : z = z_of_int (Char.code s.[0])
 let show_ty (t:z) : string = String.make 1 (Char.chr (int_of_z t))
 let show_msg = function
-  | EmptyMsg -> "EMPTY"
   | SetMsg (a, ty, v) -> Printf.sprintf "%s/%s/%s" (hex_of_bytes a) (show_ty ty) (show_u32 v)
 let show_hist (s:hstate) : string =
   Printf.sprintf "p=%d n=%d h=%s" (int_of_nat s.pos) (List.length s.hist)
